@@ -123,7 +123,18 @@ func (p *persistentStateStorage) SetState(term uint64, votedFor string) error {
 	// Write the state to the temporary file and perform the rename.
 	p.state = &persistentState{term: term, votedFor: votedFor}
 	if err := encodePersistentState(tmpFile, p.state); err != nil {
+		_ = tmpFile.Close()
 		return fmt.Errorf("could not encode state: %w", err)
+	}
+
+	// Ensure the state is on disk and the file is closed before it
+	// replaces the previous state.
+	if err := tmpFile.Sync(); err != nil {
+		_ = tmpFile.Close()
+		return fmt.Errorf("could not sync temporary file: %w", err)
+	}
+	if err := tmpFile.Close(); err != nil {
+		return fmt.Errorf("could not close temporary file: %w", err)
 	}
 	filename := filepath.Join(p.stateDir, stateBase)
 	if err := os.Rename(tmpFile.Name(), filename); err != nil {
